@@ -829,6 +829,36 @@ Proof.
     inversion Hg; subst. split; [first [intros k Ek; discriminate | intros k Ek; inversion Ek; subst; destruct (K1 eq_refl) as (Kne & Kpc & Kfresh & Kex); split; [unfold resumable; unfold Dispatch.set_pc; rewrite node_of_set_other by auto; rewrite Kpc; discriminate | split; [unfold Dispatch.set_pc; apply nodes_set_ex; exact Kex | intros z Hz Ez; subst; congruence]]]|]. split; auto. split; [apply step_rel_refl|]. split; auto. split; auto. discriminate.
 Qed.
 
+(* ---------- a node whose task will never be handed to the runner again ---------- *)
+Definition spent (d : dstate) (k : name) : Prop :=
+  n_pc (node_of d k) = PDone \/
+  (n_pc (node_of d k) = PAfterSelf /\ is_nil (t_setup (get_task k)) = true).
+
+Lemma spent_pc d d' k : n_pc (node_of d' k) = n_pc (node_of d k) -> spent d k -> spent d' k.
+Proof. unfold spent. intros ->. auto. Qed.
+
+Lemma gen_step_spent_me fuel d me y d' :
+  spent d me -> gen_step fuel d me = (y, d') -> spent d' me /\ y <> YSelf.
+Proof.
+  intros Hs Hg. destruct fuel as [|fuel]; cbn [Dispatch.gen_step] in Hg.
+  - inversion Hg; subst. split; auto. discriminate.
+  - destruct Hs as [E|[E1 E2]].
+    + rewrite E in Hg. inversion Hg; subst. split; [left; exact E|discriminate].
+    + rewrite E1, E2 in Hg. inversion Hg; subst. split; [|discriminate].
+      left. rewrite set_pc_node. reflexivity.
+Qed.
+
+Lemma gen_step_spent fuel d me y d' :
+  step_rel d d' me -> gen_step fuel d me = (y, d') ->
+  (forall z, spent d z -> spent d' z) /\ (y = YSelf -> ~ spent d me).
+Proof.
+  intros R Hg. split.
+  - intros z Hz. destruct (N.eqb_spec z me) as [->|Hne].
+    + apply (gen_step_spent_me fuel d me y d' Hz Hg).
+    + eapply spent_pc; [|exact Hz]. apply (sr_other _ _ _ R z Hne).
+  - intros -> Hs. destruct (gen_step_spent_me fuel d me YSelf d' Hs Hg) as [_ H]. apply H. reflexivity.
+Qed.
+
 (* ---------- _update_waiting ---------- *)
 Definition AllRes (d : dstate) : Prop :=
   forall z, (d_cur d = Some z \/ In z (d_ready d)) -> resumable d z.
@@ -1077,8 +1107,9 @@ Definition PreX (d : dstate) (k : name) : Prop :=
 
 Definition disp_post (d d' : dstate) (y : dyield) : Prop :=
   Inv d' /\ AllRes d' /\ QInv d' /\ (forall x, st_of d' x = st_of d x) /\ all_grows d d' /\
+  (forall z, spent d z -> spent d' z) /\
   match y with
-  | DTask k => d_cur d' = Some k /\ deps_final d' k /\
+  | DTask k => ~ spent d k /\ d_cur d' = Some k /\ deps_final d' k /\
                (n_pc (node_of d' k) = PDone -> setup_final d' k) /\
                (n_pc (node_of d' k) = PAfterSelf \/ n_pc (node_of d' k) = PDone) /\
                (n_pc (node_of d' k) = PAfterSelf -> st_of d' k = SNone) /\ PreX d' k
@@ -1086,11 +1117,14 @@ Definition disp_post (d d' : dstate) (y : dyield) : Prop :=
   end.
 
 Lemma disp_post_st d0 d d' y :
-  (forall x, st_of d x = st_of d0 x) -> all_grows d0 d -> disp_post d d' y -> disp_post d0 d' y.
+  (forall x, st_of d x = st_of d0 x) -> all_grows d0 d -> (forall z, spent d0 z -> spent d z) ->
+  disp_post d d' y -> disp_post d0 d' y.
 Proof.
-  intros E G0 (A & B & Q & C & G & D). split; auto. split; auto. split; auto. split; [|split; auto].
+  intros E G0 S0 (A & B & Q & C & G & Sp & D). split; auto. split; auto. split; auto. split; [|split; [|split]].
   - intro x. rewrite C. apply E.
   - eapply all_grows_trans; eauto.
+  - intros z Hz. apply Sp, S0, Hz.
+  - destruct y; auto. destruct D as (D0 & D'). split; auto.
 Qed.
 
 Lemma disp_run_spec fuel : forall d y d',
@@ -1104,6 +1138,7 @@ Proof.
     destruct (gen_step (S (S fuel)) d me) as [g d1] eqn:Eg.
     destruct (gen_step_spec _ d me g d1 HI HP HRme Eg) as (SN & I1 & R1 & Q1 & P1 & Y1).
     destruct (sr_queues _ _ _ R1) as (q1 & q2 & q3 & q4). rewrite Ecur in q3.
+    destruct (gen_step_spent _ _ _ _ _ R1 Eg) as [Sp1 Sp2].
     assert (ResReady : forall z, In z (d_ready d) -> resumable d1 z).
     { intros z Hz. assert (z <> me) by (intros ->; apply (proj1 (Qr me Hz)); reflexivity).
       eapply resumable_other; eauto. }
@@ -1114,7 +1149,7 @@ Proof.
       destruct (SN k eq_refl) as (Rk & Exk & Fresh).
       assert (Fr : forall z, In z (d_ready d) \/ In z (d_waiting d) \/ Some me = Some z -> z <> k)
         by (intros z Hz; apply Fresh; apply Qe; exact Hz).
-      apply (disp_post_st d (set_ready d1 (d_ready d1 ++ [k]))); [intro x; rewrite st_set_ready; apply (sr_st _ _ _ R1)|eapply all_grows_trans; [apply (sr_all _ _ _ R1)|apply all_grows_queues; reflexivity]|].
+      apply (disp_post_st d (set_ready d1 (d_ready d1 ++ [k]))); [intro x; rewrite st_set_ready; apply (sr_st _ _ _ R1)|eapply all_grows_trans; [apply (sr_all _ _ _ R1)|apply all_grows_queues; reflexivity]|exact Sp1|].
       apply IH.
       * apply (Inv_queues d1); [reflexivity|exact I1].
       * intros z Hz. apply (P1 ltac:(discriminate) z). exact Hz.
@@ -1130,7 +1165,7 @@ Proof.
       * exact Hd.
     + (* wait *)
       apply (disp_post_st d (set_cur (set_waiting d1 (addset me (d_waiting d1))) None));
-        [intro x; apply (sr_st _ _ _ R1)|eapply all_grows_trans; [apply (sr_all _ _ _ R1)|apply all_grows_queues; reflexivity]|].
+        [intro x; apply (sr_st _ _ _ R1)|eapply all_grows_trans; [apply (sr_all _ _ _ R1)|apply all_grows_queues; reflexivity]|exact Sp1|].
       apply IH.
       * apply (Inv_queues d1); [reflexivity|exact I1].
       * intros z Hz. apply (P1 ltac:(discriminate) z). exact Hz.
@@ -1150,11 +1185,11 @@ Proof.
       { intros z [Hz|Hz]; [rewrite q3 in Hz; inversion Hz; subst; apply (Q1 ltac:(discriminate))|].
         rewrite q1 in Hz. apply ResReady; exact Hz. }
       split. { split; rewrite ?q1, ?q2, ?q3; auto. all: try (intros z Hz; apply Ex1; destruct Hz as [Hz|[Hz|Hz]]; auto). }
-      split; [apply (sr_st _ _ _ R1)|]. split; [apply (sr_all _ _ _ R1)|]. split; [rewrite q3; reflexivity|]. split; auto. split; auto. split; auto. split; auto.
+      split; [apply (sr_st _ _ _ R1)|]. split; [apply (sr_all _ _ _ R1)|]. split; [exact Sp1|]. split; [apply Sp2; reflexivity|]. split; [rewrite q3; reflexivity|]. split; auto. split; auto. split; auto. split; auto.
       intros z Hz Hpc. rewrite (sr_st _ _ _ R1). apply HP.
       destruct (sr_other _ _ _ R1 z Hz) as [E _]. congruence.
     + (* generator exhausted *)
-      apply (disp_post_st d (set_cur d1 None)); [intro x; apply (sr_st _ _ _ R1)|eapply all_grows_trans; [apply (sr_all _ _ _ R1)|apply all_grows_queues; reflexivity]|].
+      apply (disp_post_st d (set_cur d1 None)); [intro x; apply (sr_st _ _ _ R1)|eapply all_grows_trans; [apply (sr_all _ _ _ R1)|apply all_grows_queues; reflexivity]|exact Sp1|].
       apply IH.
       * apply (Inv_queues d1); [reflexivity|exact I1].
       * intros z Hz. apply (P1 ltac:(discriminate) z). exact Hz.
@@ -1168,12 +1203,12 @@ Proof.
       { intros z [Hz|Hz]; [rewrite q3 in Hz; inversion Hz; subst; apply (Q1 ltac:(discriminate))|].
         rewrite q1 in Hz. apply ResReady; exact Hz. }
       split. { split; rewrite ?q1, ?q2, ?q3; auto. all: try (intros z Hz; apply Ex1; destruct Hz as [Hz|[Hz|Hz]]; auto). }
-      split; [apply (sr_st _ _ _ R1)|]. split; [apply (sr_all _ _ _ R1)|]. apply P1. discriminate.
+      split; [apply (sr_st _ _ _ R1)|]. split; [apply (sr_all _ _ _ R1)|]. split; [exact Sp1|]. apply P1. discriminate.
     + inversion Hd; subst. split; [exact I1|]. split.
       { intros z [Hz|Hz]; [rewrite q3 in Hz; inversion Hz; subst; apply (Q1 ltac:(discriminate))|].
         rewrite q1 in Hz. apply ResReady; exact Hz. }
       split. { split; rewrite ?q1, ?q2, ?q3; auto. all: try (intros z Hz; apply Ex1; destruct Hz as [Hz|[Hz|Hz]]; auto). }
-      split; [apply (sr_st _ _ _ R1)|]. split; [apply (sr_all _ _ _ R1)|]. apply P1. discriminate.
+      split; [apply (sr_st _ _ _ R1)|]. split; [apply (sr_all _ _ _ R1)|]. split; [exact Sp1|]. apply P1. discriminate.
   - destruct (d_ready d) as [|x r] eqn:Er.
     + destruct (next_from_torun d (d_torun d)) as [o d1] eqn:En.
       destruct (next_from_torun_spec _ d o d1 HI En) as (I1 & S1 & F1 & q1 & q2 & q3 & X1 & N1 & G1).
@@ -1182,7 +1217,7 @@ Proof.
       { intros z Hz. rewrite S1. apply HP. destruct (F1 z) as [E _]. congruence. }
       destruct o as [x|].
       * destruct (N1 x eq_refl) as [Nx Ex].
-        apply (disp_post_st d (set_cur d1 (Some x))); [intro z; apply S1|eapply all_grows_trans; [exact G1|apply all_grows_queues; reflexivity]|].
+        apply (disp_post_st d (set_cur d1 (Some x))); [intro z; apply S1|eapply all_grows_trans; [exact G1|apply all_grows_queues; reflexivity]|intros z Hz; eapply spent_pc; [|exact Hz]; apply F1|].
         apply IH; auto.
         -- apply (Inv_queues d1); [reflexivity|exact I1].
         -- intros z [Hz|Hz]; simpl in Hz.
@@ -1200,9 +1235,9 @@ Proof.
           split. { split; rewrite ?q1, ?q2, ?q3; auto; try constructor; try (intros z []).
                    all: try (intros; discriminate).
                    all: try (intros z [[]|[Hz|Hz]]; [|discriminate]; apply X1; apply Qe; auto). }
-          split; [exact S1|]. split; [exact G1|]. destruct Hy; subst; exact P1. }
+          split; [exact S1|]. split; [exact G1|]. split; [intros z Hz; eapply spent_pc; [|exact Hz]; apply F1|]. destruct Hy; subst; exact P1. }
         destruct (is_nil (d_waiting d1)); inversion Hd; subst; apply Hpost; auto.
-    + apply (disp_post_st d (set_cur (set_ready d r) (Some x))); [reflexivity|apply all_grows_queues; reflexivity|].
+    + apply (disp_post_st d (set_cur (set_ready d r) (Some x))); [reflexivity|apply all_grows_queues; reflexivity|auto|].
       inversion Qn; subst.
       apply IH; auto.
       * apply (Inv_queues d); [reflexivity|exact HI].
@@ -1222,7 +1257,7 @@ Theorem disp_send_spec fuel d p y d' :
 Proof.
   intros HI HP HA HQ Hp Hs. unfold Dispatch.disp_send in Hs.
   destruct (update_waiting_spec d p HI HA HQ Hp) as (I1 & A1 & Q1 & W1). cbv zeta in *.
-  apply (disp_post_st d (update_waiting d p)); [apply (wr_st _ _ W1)|apply (wr_all _ _ W1)|].
+  apply (disp_post_st d (update_waiting d p)); [apply (wr_st _ _ W1)|apply (wr_all _ _ W1)|intros z Hz; eapply spent_pc; [|exact Hz]; apply (wr_pc _ _ W1)|].
   eapply disp_run_spec; eauto. eapply Pre_wake; eauto.
 Qed.
 
